@@ -2,3 +2,4 @@ import Drv.Codec
 import Drv.Topic
 import Drv.Session
 import Drv.Broker
+import Drv.BaseConn
